@@ -169,6 +169,33 @@ func (m *Mast) diffOne(
 				if m.debug {
 					fmt.Printf("  old(consider) new(consider) and links differ\n")
 				}
+				// One of the two subtrees comes later in the other version's traversal:
+				// the versions share it, everything in front of it there is one-sided,
+				// and it is skipped when it meets itself. Open only the other link.
+				if dc.newStack.hasLink(o.considerLink) {
+					if !m.alreadyNotified(ctx, "new", dc.alreadyNotifiedNewLink, n.considerLink) {
+						dc.addedLink = n.considerLink
+					}
+					newNode, err := m.load(ctx, n.considerLink)
+					if err != nil {
+						return fmt.Errorf("load: %w", err)
+					}
+					dc.oldStack.push(o)
+					dc.newStack.pushNode(newNode)
+					return nil
+				}
+				if dc.oldStack.hasLink(n.considerLink) {
+					if !dc.oldMast.alreadyNotified(ctx, "old", dc.alreadyNotifiedOldLink, o.considerLink) {
+						dc.removedLink = o.considerLink
+					}
+					oldNode, err := dc.oldMast.load(ctx, o.considerLink)
+					if err != nil {
+						return fmt.Errorf("load: %w", err)
+					}
+					dc.oldStack.pushNode(oldNode)
+					dc.newStack.push(n)
+					return nil
+				}
 				if !dc.oldMast.alreadyNotified(ctx, "old", dc.alreadyNotifiedOldLink, o.considerLink) {
 					dc.removedLink = o.considerLink
 				}
@@ -212,6 +239,14 @@ func (m *Mast) diffOne(
 				if err != nil {
 					return fmt.Errorf("layer: %w", err)
 				}
+				// A top node also holds the keys of higher layers: its level is the
+				// tree's height, whatever the layer of its first key.
+				if oldLayer > dc.oldMast.height {
+					oldLayer = dc.oldMast.height
+				}
+				if newLayer > m.height {
+					newLayer = m.height
+				}
 				if oldLayer > newLayer {
 					dc.oldStack.pushNode(oldNode)
 					dc.newStack.push(n)
@@ -221,26 +256,16 @@ func (m *Mast) diffOne(
 					dc.newStack.pushNode(newNode)
 					return nil
 				}
-				cmp, err := m.keyOrder(oldKey, newKey)
-				if err != nil {
-					return fmt.Errorf("keyCompare: %w", err)
-				}
-				if m.debug {
-					fmt.Printf("  oldKey=%v.compare(newKey=%v): %d\n", oldKey, newKey, cmp)
-				}
-				if cmp < 0 {
-					dc.oldStack.pushNode(oldNode)
-					dc.newStack.push(n)
-				} else if cmp > 0 {
-					dc.oldStack.push(o)
-					dc.newStack.pushNode(newNode)
-				} else {
-					dc.oldStack.pushNode(oldNode)
-					dc.newStack.pushNode(newNode)
-				}
+				// Same level: neither node comes later in the other version's traversal
+				// (looked for above), so each belongs to one version only. Open both: if
+				// only the one with the smaller first key is opened, its first child meets
+				// the other, still closed, node, and a chain of pass-through nodes below
+				// it is walked down to its end although both versions share it.
+				dc.oldStack.pushNode(oldNode)
+				dc.newStack.pushNode(newNode)
 			}
 		} else if o.considerLink != nil && n.considerLink == nil {
-			if next := dc.newStack.nextLink(); next != nil && next.considerLink == o.considerLink {
+			if next := dc.newStack.nextLink(); (next != nil && next.considerLink == o.considerLink) || dc.newStack.hasLink(o.considerLink) {
 				// The new version has this very subtree right behind its entry, so the
 				// entry precedes everything below the link: report it without opening
 				// the subtree, which the two versions share and which is skipped next.
@@ -260,7 +285,7 @@ func (m *Mast) diffOne(
 			dc.oldStack.pushNode(oldNode)
 			dc.newStack.push(n)
 		} else if o.considerLink == nil && n.considerLink != nil {
-			if next := dc.oldStack.nextLink(); next != nil && next.considerLink == n.considerLink {
+			if next := dc.oldStack.nextLink(); (next != nil && next.considerLink == n.considerLink) || dc.oldStack.hasLink(n.considerLink) {
 				// symmetric: the old entry precedes a subtree both versions share
 				dc.newStack.push(n)
 				dc.curKey = o.yield.Key
@@ -381,6 +406,18 @@ func (stack *iterItemStack) nextLink() *iterItem {
 		}
 	}
 	return nil
+}
+
+// hasLink reports whether the link is among the items still to be traversed.
+// The stack holds the rest of an in-order traversal, so everything above the
+// link precedes its whole subtree in key order.
+func (stack *iterItemStack) hasLink(link interface{}) bool {
+	for i := len(stack.things) - 1; i >= 0; i-- {
+		if stack.things[i].considerLink == link {
+			return true
+		}
+	}
+	return false
 }
 
 func (stack *iterItemStack) pushNode(node *mastNode) {
